@@ -4,6 +4,16 @@
 
 package executor
 
+import (
+	"github.com/buildbuildio/pebbles/gqlerrors"
+	"github.com/buildbuildio/pebbles/queryer"
+	"github.com/vektah/gqlparser/v2/ast"
+)
+
+var _ = queryer.QueryCalls
+var _ gqlerrors.ErrorList
+var _ ast.Field
+
 //@ func Executor.Execute
 //@ props C08 C10
 //@ params ctx
@@ -14,4 +24,262 @@ package executor
 //@ func (ParallelExecutor).Execute
 //@ props C09
 //@ modifies-assumed fresh, entries(map[string]interface{}), elems(interface{}), elems(map[string]interface{}), global(queryer.QueryCalls)
+//@ end
+
+//@ nonnil-elems *ExecutionRequest
+//@ nonnil-elems *ExecutionResult
+//@ nonnil-field ExecutionRequest.QueryPlanStep
+//@ nonnil-field queryerResponse.ExecutionRequest
+//@ assume-nonnil-boxed map[string]interface{}
+//@ assume-nonnil-elems *ast.Field
+//@ assume-nonnil-field ast.Field.Definition
+//@ assume-nonnil-field ast.FieldDefinition.Type
+
+//@ func PointDataExtractor.Extract
+//@ props C09 C01
+//@ params point
+//@ returns pd, err
+//@ ensures[nonnil] err == nil ==> pd != nil
+//@ modifies fresh, entries(map[string]*PointData)
+//@ end
+
+//@ func GetParentTypeFromIDFunc
+//@ trusted callback supplied by the embedding application
+//@ modifies fresh
+//@ end
+
+//@ define wfIMap(im indexMap) bool = forallT(k, string, has(im, k) ==> im[k] != nil) && forallT(k1, string, forallT(k2, string, has(im, k1) && has(im, k2) && k1 != k2 ==> im[k1] != im[k2]))
+//@ define filled(q []*queryerResponse, ers []*ExecutionRequest, j int) bool = q[j] != nil && q[j].ExecutionRequest == ers[j]
+
+//@ func (indexMap).Set
+//@ props C12 C06 C09
+//@ requires im != nil && wfIMap(im)
+//@ ensures[wf] wfIMap(im)
+//@ ensures[new] result == !old(has(im, value))
+//@ ensures[dom] forallT(k, string, has(im, k) == (old(has(im, k)) || k == value))
+//@ ensures[card] len(im) == old(len(im)) + ite(result, 1, 0)
+//@ ensures[target-new] result ==> im[value].targetIndex == targetIndex && len(im[value].indexes) == 1 && im[value].indexes[0] == index && fresh(im[value])
+//@ ensures[target-old] !result ==> im[value] == old(im[value]) && im[value].targetIndex == old(im[value].targetIndex) && len(im[value].indexes) == old(len(im[value].indexes)) + 1 && im[value].indexes[old(len(im[value].indexes))] == index && forall(p, 0, old(len(im[value].indexes)), im[value].indexes[p] == old(im[value].indexes[p]))
+//@ ensures[others] forallT(k, string, k != value && has(im, k) ==> im[k] == old(im[k]) && im[k].targetIndex == old(im[k].targetIndex) && len(im[k].indexes) == old(len(im[k].indexes)) && forall(p, 0, len(im[k].indexes), im[k].indexes[p] == old(im[k].indexes[p])))
+//@ modifies im[*], all(indexMapValue.indexes), elems(int), fresh
+//@ end
+
+//@ func (indexMap).GetSameIndexes
+//@ props C12 C09
+//@ requires forallT(k, string, has(im, k) ==> im[k] != nil)
+//@ ensures[found] len(result) > 0 ==> existsT(k, string, has(im, k) && im[k].targetIndex == targetIndex && sameslice(result, im[k].indexes))
+//@ modifies fresh
+//@ end
+
+//@ func (*DepthExecutor).getVariables
+//@ props C12 C09
+//@ returns vars, err
+//@ requires de != nil && de.ctx != nil && de.ctx.Request != nil && req != nil && de.PointDataExtractor != nil
+//@ ensures[fresh] err == nil ==> vars != nil && fresh(vars)
+//@ modifies fresh, entries(map[string]*PointData)
+//@ end
+
+//@ func (*DepthExecutor).isNeedToQuery
+//@ props C12 C09
+//@ requires de != nil && de.ctx != nil && req != nil
+//@ modifies fresh
+//@ end
+
+//@ func (*DepthExecutor).setIMap
+//@ props C12 C06 C09
+//@ requires de != nil && req != nil && iMap != nil && wfIMap(iMap)
+//@ ensures[wf] wfIMap(iMap)
+//@ ensures[card] len(iMap) == old(len(iMap)) + ite(result, 1, 0)
+//@ ensures[dom] forallT(k, string, old(has(iMap, k)) ==> has(iMap, k))
+//@ ensures[targets] forallT(k, string, has(iMap, k) ==> (old(has(iMap, k)) && iMap[k].targetIndex == old(iMap[k].targetIndex)) || (result && !old(has(iMap, k)) && iMap[k].targetIndex == old(len(iMap))))
+//@ ensures[members] forallT(k, string, has(iMap, k) ==> forall(p, 0, len(iMap[k].indexes), iMap[k].indexes[p] == index || (old(has(iMap, k)) && p < old(len(iMap[k].indexes)) && iMap[k].indexes[p] == old(iMap[k].indexes[p]))))
+//@ ensures[kept] forallT(k, string, old(has(iMap, k)) ==> len(iMap[k].indexes) >= old(len(iMap[k].indexes)) && forall(p, 0, old(len(iMap[k].indexes)), iMap[k].indexes[p] == old(iMap[k].indexes[p])))
+//@ ensures[covered] existsT(k, string, has(iMap, k) && exists(p, 0, len(iMap[k].indexes), iMap[k].indexes[p] == index))
+//@ modifies iMap[*], all(indexMapValue.indexes), elems(int), fresh
+//@ end
+
+//@ func (*DepthExecutor).executeRequests
+//@ props C12 C06 C09
+//@ returns qResps, err
+//@ requires de != nil && de.ctx != nil && de.ctx.Request != nil && de.PointDataExtractor != nil
+//@ requires forallT(u, string, has(de.ctx.Queryers, u) ==> de.ctx.Queryers[u] != nil)
+//@ ensures[one-call] queryer.QueryCalls <= old(queryer.QueryCalls) + 1 @props C12
+//@ ensures[no-call-on-empty] len(ers) == 0 ==> queryer.QueryCalls == old(queryer.QueryCalls) @props C12
+//@ ensures[fan-out] err == nil && len(ers) > 0 ==> len(qResps) == len(ers) && forall(j, 0, len(ers), filled(qResps, ers, j)) @props C12
+//@ modifies fresh, entries(map[string]interface{}), elems(interface{}), elems(map[string]interface{}), entries(map[string]*PointData), global(queryer.QueryCalls)
+//@ loop 0 invariant[own] fresh(iMap) && fresh(nillResps) && (base(batchRequest) == 0 || fresh(batchRequest)) && iMap != nil && nillResps != nil
+//@ loop 0 invariant[calls] queryer.QueryCalls == old(queryer.QueryCalls)
+//@ loop 0 invariant[wf] wfIMap(iMap) && len(batchRequest) == len(iMap)
+//@ loop 0 invariant[targets] forallT(k, string, has(iMap, k) ==> 0 <= iMap[k].targetIndex && iMap[k].targetIndex < len(batchRequest))
+//@ loop 0 invariant[inj] forallT(k1, string, forallT(k2, string, has(iMap, k1) && has(iMap, k2) && k1 != k2 ==> iMap[k1].targetIndex != iMap[k2].targetIndex))
+//@ loop 0 invariant[members] forallT(k, string, has(iMap, k) ==> forall(p, 0, len(iMap[k].indexes), 0 <= iMap[k].indexes[p] && iMap[k].indexes[p] < it))
+//@ loop 0 invariant[nills] forallT(j, int, has(nillResps, j) ==> 0 <= j && j < it)
+//@ loop 0 invariant[covered] forall(j, 0, it, has(nillResps, j) || existsT(k, string, has(iMap, k) && exists(p, 0, len(iMap[k].indexes), iMap[k].indexes[p] == j)))
+//@ loop 1 invariant[own] fresh(qResps) && len(qResps) == len(ers)
+//@ loop 1 invariant[mono] forall(j, 0, len(ers), qResps[j] == nil || filled(qResps, ers, j))
+//@ loop 1 invariant[done] forallT(k, string, has(iMap, k) && iMap[k].targetIndex < it ==> forall(p, 0, len(iMap[k].indexes), filled(qResps, ers, iMap[k].indexes[p])))
+//@ loop 2 invariant[own] fresh(qResps) && len(qResps) == len(ers)
+//@ loop 2 invariant[mono] forall(j, 0, len(ers), qResps[j] == nil || filled(qResps, ers, j))
+//@ loop 2 invariant[inner] forall(p, 0, it, filled(qResps, ers, indexes[p]))
+//@ loop 2 invariant[done] forallT(k, string, has(iMap, k) && iMap[k].targetIndex < i ==> forall(p, 0, len(iMap[k].indexes), filled(qResps, ers, iMap[k].indexes[p])))
+//@ loop 3 invariant[own] fresh(qResps) && len(qResps) == len(ers)
+//@ loop 3 invariant[mono] forall(j, 0, len(ers), qResps[j] == nil || filled(qResps, ers, j))
+//@ loop 3 invariant[nills] forallT(j, int, seen(j) ==> filled(qResps, ers, j))
+//@ loop 3 invariant[done] forallT(k, string, has(iMap, k) ==> forall(p, 0, len(iMap[k].indexes), filled(qResps, ers, iMap[k].indexes[p])))
+//@ end
+
+//@ func copyMap
+//@ props C09
+//@ modifies fresh
+//@ end
+
+//@ func isListElement
+//@ props C09 C01
+//@ end
+
+//@ func copy2DStringArray
+//@ props C09
+//@ ensures[len] len(result) == len(v)
+//@ ensures[rows] forall(k, 0, len(v), len(result[k]) == len(v[k]))
+//@ modifies fresh
+//@ loop 0 invariant[rows] forall(k, 0, it, len(res[k]) == len(v[k])) && len(res) == len(v) && fresh(res)
+//@ end
+
+//@ func mergeMaps
+//@ props C09 C01
+//@ requires left != nil
+//@ ensures[same] result == left
+//@ end
+
+//@ func mergeSlices
+//@ props C09 C01
+//@ ensures[len] len(result) >= len(lSlice)
+//@ end
+
+//@ func getLeftEntityPosition
+//@ props C09 C01
+//@ ensures[range] -1 <= result && result < len(left)
+//@ ensures[map] result >= 0 ==> is(left[result], map[string]interface{}) && left[result].(map[string]interface{}) != nil
+//@ modifies fresh
+//@ end
+
+//@ func mergeOrRewriteMap
+//@ props C09 C01
+//@ requires 0 <= id && id < len(lSlice)
+//@ ensures[same] sameslice(result, lSlice)
+//@ end
+
+//@ func ExtractValueModifyingSource
+//@ props C09 C01
+//@ requires extractor != nil && source != nil
+//@ end
+
+//@ func FindInsertionPoints
+//@ props C09 C01
+//@ end
+
+//@ func extractID
+//@ props C09 C01
+//@ modifies fresh
+//@ end
+
+//@ func FindSelection
+//@ props C09 C01
+//@ modifies fresh
+//@ end
+
+//@ func (*CachedPointDataExtractor).Extract
+//@ props C09 C01
+//@ returns pd, err
+//@ requires e != nil && e.cache != nil
+//@ requires forallT(k, string, has(e.cache, k) ==> e.cache[k] != nil)
+//@ ensures[inv] forallT(k, string, has(e.cache, k) ==> e.cache[k] != nil)
+//@ ensures[nonnil] err == nil ==> pd != nil
+//@ end
+
+//@ func (*DepthExecutorManager).Execute
+//@ props C09 C12 C06
+//@ requires dem != nil && dem.depthExecutors != nil && dem.result != nil && dem.pointDataExtractor != nil
+//@ requires has(dem.depthExecutors, 0)
+//@ requires forallT(d, int, has(dem.depthExecutors, d) ==> dem.depthExecutors[d] != nil)
+//@ end
+
+//@ func (*DepthExecutorManager).merge
+//@ props C09 C01
+//@ requires dem != nil && dem.result != nil && dem.pointDataExtractor != nil && resp != nil
+//@ end
+
+//@ func walkPlanStep
+//@ props C09
+//@ requires qps != nil && acc != nil
+//@ end
+
+//@ func NewDepthExecutorManager
+//@ props C09
+//@ requires ctx != nil && ctx.QueryPlan != nil
+//@ end
+
+//@ func (*DepthExecutor).Execute
+//@ props C09 C12
+//@ requires de != nil
+//@ end
+
+//@ func (*DepthExecutor).Execute$1
+//@ props C09 C12
+//@ assumes x != nil
+//@ end
+
+//@ func (*DepthExecutor).Execute$2
+//@ props C09
+//@ requires de != nil
+//@ end
+
+//@ func (*DepthExecutor).parseRespones
+//@ props C09
+//@ requires de != nil
+//@ end
+
+//@ func (*DepthExecutor).parseRespones$1
+//@ props C09
+//@ returns res, err
+//@ requires de != nil && field != nil
+//@ ensures[nonnil] err == nil ==> res != nil
+//@ end
+
+//@ func (*DepthExecutor).parseRespones$2
+//@ props C09
+//@ requires acc != nil && value != nil
+//@ ensures[same] result == acc
+//@ end
+
+//@ func (*DepthExecutor).findNextExecutionRequests
+//@ props C09
+//@ requires step != nil
+//@ end
+
+//@ func findNextExecutionRequestsWithCache
+//@ props C09
+//@ requires step != nil
+//@ end
+
+//@ func findNextExecutionRequestsAsync
+//@ props C09
+//@ requires step != nil
+//@ end
+
+//@ func findNextExecutionRequestsAsync$1
+//@ props C09
+//@ requires step != nil && field != nil
+//@ end
+
+//@ func findNextExecutionRequestsAsync$2
+//@ props C09
+//@ end
+
+//@ func (ExecutionRequest).ToGqlError
+//@ props C09 C10
+//@ requires err != nil
+//@ ensures[nonnil] result != nil
+//@ ensures[same] is(err, *gqlerrors.Error) ==> result == err.(*gqlerrors.Error)
+//@ modifies fresh
 //@ end
